@@ -29,7 +29,7 @@ import (
 func TestVerifC13(t *testing.T) {
 	logx.Disable()
 	secs := verifh.Sections(func(r *verifh.Rng) []verifh.Section {
-		return append(VerifC13Gen(r, 120, 2500, 0), c13MultiGen(r)...)
+		return append(VerifC13Gen(r, 120, 2000, 0), c13MultiGen(r)...)
 	})
 	verifh.Run(t, secs, func(cfg verifh.Cfg) (func(op []string) string, func()) {
 		if cfg.Str("h", "") == "multi" {
@@ -314,9 +314,9 @@ func c13MultiStart(cfg verifh.Cfg) (func(op []string) string, func()) {
 	route := func(sv *c13Svc, evs []*clientv3.Event) (lost bool) {
 		if !sv.watched {
 			lost = true
-		} else {
-			e.Push(sv.prefix, clientv3.WatchResponse{Events: evs})
-			e.Sync(sv.prefix)
+		} else if !e.TryDeliver(sv.prefix, clientv3.WatchResponse{Events: evs}) {
+			// the watch loop of the key does not take events any more
+			sv.watched, lost = false, true
 		}
 		if xsub != nil && sv == svcs[0] {
 			var mine []*clientv3.Event
@@ -328,9 +328,8 @@ func c13MultiStart(cfg verifh.Cfg) (func(op []string) string, func()) {
 			if len(mine) > 0 {
 				if !xwatched {
 					lost = true
-				} else if xcovers() {
-					e.Push(xw, clientv3.WatchResponse{Events: mine})
-					e.Sync(xw)
+				} else if xcovers() && !e.TryDeliver(xw, clientv3.WatchResponse{Events: mine}) {
+					xwatched, lost = false, true
 				}
 			}
 		}
@@ -349,9 +348,12 @@ func c13MultiStart(cfg verifh.Cfg) (func(op []string) string, func()) {
 			e.SetSnapshot(xkey, mine)
 		}
 	}
-	wait := 10 * time.Second
+	wait := verifPatience
 	step := func(op []string) string {
 		extra := ""
+		if wait > verifPatience {
+			wait = verifPatience
+		}
 		svc := func(tok string) *c13Svc {
 			i := verifh.Atoi(tok)
 			if i < 0 || i >= n {
@@ -390,14 +392,16 @@ func c13MultiStart(cfg verifh.Cfg) (func(op []string) string, func()) {
 				break
 			}
 			drain()
-			e.Push(sv.prefix, clientv3.WatchResponse{CompactRevision: 1, Canceled: true})
-			e.AwaitWatch(sv.prefix)
-			e.Sync(sv.prefix)
+			if !(e.TryPush(sv.prefix, clientv3.WatchResponse{CompactRevision: 1, Canceled: true}) && e.TryAwaitWatch(sv.prefix) &&
+				e.TryPush(sv.prefix, clientv3.WatchResponse{})) {
+				sv.watched, extra = false, " lost=1"
+			}
 			if xsub != nil && sv == svcs[0] && xwatched {
 				// the exact key lies under this prefix: its watch has lost the same events
-				e.Push(xw, clientv3.WatchResponse{CompactRevision: 1, Canceled: true})
-				e.AwaitWatch(xw)
-				e.Sync(xw)
+				if !(e.TryPush(xw, clientv3.WatchResponse{CompactRevision: 1, Canceled: true}) && e.TryAwaitWatch(xw) &&
+					e.TryPush(xw, clientv3.WatchResponse{})) {
+					xwatched, extra = false, " lost=1"
+				}
 			}
 		case "connreload":
 			parts := [][]string{nil}
@@ -447,16 +451,14 @@ func c13MultiStart(cfg verifh.Cfg) (func(op []string) string, func()) {
 			var ids []string
 			for i, sv := range svcs {
 				if sv.open {
-					sv.watched = seen[sv.prefix]
+					sv.watched = seen[sv.prefix] && e.TryPush(sv.prefix, clientv3.WatchResponse{})
 					if sv.watched {
-						e.Sync(sv.prefix)
 						ids = append(ids, strconv.Itoa(i))
 					}
 				}
 			}
 			if xsub != nil {
-				if xwatched = seen[xw]; xwatched {
-					e.Sync(xw)
+				if xwatched = seen[xw] && e.TryPush(xw, clientv3.WatchResponse{}); xwatched {
 					ids = append(ids, "x")
 				}
 			}
